@@ -398,17 +398,23 @@ type c05AddRes struct {
 }
 
 func (c *c05Case) prepAdd(h *c05Handle) c05AddRes {
-	// a store that has not seen the current GC generation would retry inside
-	// AddTableFilesToManifest without ever rebasing; pushers open the destination right before
-	// they add, so bring the handle up to date first
+	r := c05AddRes{h: h, files: h.files}
+	h.files = nil
+	// A store that has not seen the current GC generation retries inside
+	// AddTableFilesToManifest without ever rebasing (observed: it spins until it runs out of
+	// file descriptors). Pushers open the destination right before they add, so bring the
+	// handle up to date first: Rebase, and when that does not help (a GC that rewrote the same
+	// table set leaves the lock hash unchanged, so Rebase short-circuits) reopen the store.
 	if c.exists && h.st.upstream.gcGen != c.cur.gcGen {
 		if err := h.st.Rebase(c.ctx); err != nil {
 			c.fatalf("handle %d Rebase: %v", h.idx, err)
 		}
 		c.cls["rebase_before_add(gcgen)"] = true
+		if h.st.upstream.gcGen != c.cur.gcGen {
+			c.reopen(h)
+			c.cls["reopen_before_add(gcgen_same_lock)"] = true
+		}
 	}
-	r := c05AddRes{h: h, files: h.files}
-	h.files = nil
 	return r
 }
 
